@@ -27,7 +27,8 @@ from urllib.request import OpenerDirector
 from xml.etree import ElementTree
 from xml.etree.ElementTree import Element
 
-from elementpath import XPathToken, SchemaElementNode, build_schema_node_tree
+from elementpath import ElementPathError, XPathToken, SchemaElementNode, \
+    build_schema_node_tree
 
 import xmlschema.names as nm
 from xmlschema.aliases import XMLSourceType, NsmapType, LocationsType, UriMapperType, \
@@ -948,7 +949,11 @@ class XMLSchemaBase(XsdValidator, ElementPathMixin[Union[SchemaType, XsdElement]
         if not path or path == tag or path == f'/{tag}':
             return self.maps.elements.get(tag)
         elif path[-1] == '*':
-            xsd_element = self.find(path[:-1] + tag, namespaces)
+            try:
+                xsd_element = self.find(path[:-1] + tag, namespaces)
+            except ElementPathError:
+                self.find(path, namespaces)  # raises if it's the path that is wrong
+                xsd_element = None  # the tag is not usable as an XPath step
             if isinstance(xsd_element, XsdElement):
                 return xsd_element
             else:
@@ -1346,8 +1351,11 @@ class XMLSchemaBase(XsdValidator, ElementPathMixin[Union[SchemaType, XsdElement]
                             break
 
                     path_ = f"{'/'.join(e.tag for e in ancestors)}/ancestor-or-self::node()"
-                    xsd_ancestors = cast(list[XsdElement],
-                                         schema.findall(path_, namespaces)[1:])
+                    try:
+                        xsd_ancestors = cast(list[XsdElement],
+                                             schema.findall(path_, namespaces)[1:])
+                    except ElementPathError:
+                        xsd_ancestors = []  # tags that are not usable as XPath steps
 
                     # Clear identity constraints counters
                     for k, e in enumerate(xsd_ancestors[k:], start=k):
